@@ -22,8 +22,9 @@ final one (the harness joins `WriteFile(tmp, …)` with the `Rename(tmp, path)` 
 bytes `GetKeyContextFromContext(kc)` as context (`CrossClient.keyEncrypt`): the client id for
 per-client keys, the fixed context otherwise – the purpose is *not* part of it.
 
-Only `GenerateDataEncryptionKeys` validates the client id (`keystore.ValidateID`); the other
-operations take it as given (callers validate: `cmd.ValidateClientID`, the TLS id converter).
+Every per-client writer validates the client id first (`keystore.ValidateID`; on the pinned tree only
+`GenerateDataEncryptionKeys` did – `writesPinned`, repair 50). The *readers* and destroyers of the v1
+key store still take the id as given (known finding `v1-unvalidated-client-id-escapes`).
 -/
 namespace AcraModel.KeystoreSec.V1WriteLog
 open AcraModel.KeystoreSec.Path AcraModel.KeystoreSec.V1
@@ -73,8 +74,15 @@ def Op.clientId : Op → Option Bytes
   | .genDataKeys id _ _ | .saveDataKeys id _ _ | .genSymKey id _ | .genHmacKey id _ => some id
   | _ => none
 
-/-- does the operation itself refuse the id -/
-def Op.rejected : Op → Bool
+/-- does the operation itself refuse the id: every per-client writer calls `keystore.ValidateID`
+first (`GenerateDataEncryptionKeys` always did; the other three since repair 50) -/
+def Op.rejected (op : Op) : Bool :=
+  match op.clientId with
+  | some id => !validateID id
+  | none => false
+
+/-- the pinned tree: only `GenerateDataEncryptionKeys` validated -/
+def Op.rejectedPinned : Op → Bool
   | .genDataKeys id _ _ => !validateID id
   | _ => false
 
@@ -90,6 +98,15 @@ deriving DecidableEq, Repr
 (invalid id, encryption failure). `nonce` is what `Protect` draws. -/
 def writes (c : CryptoOps) (master nonce : Bytes) (op : Op) : Option (List Write) :=
   if op.rejected then none
+  else (keyEncrypt c master op.ctx op.secret nonce).map fun ct =>
+    ⟨op.file, ct, true⟩ ::
+      match op.public with
+      | some pub => [⟨op.file ++ sPub, pub, false⟩]
+      | none => []
+
+/-- the write log on the pinned tree (before repair 50) -/
+def writesPinned (c : CryptoOps) (master nonce : Bytes) (op : Op) : Option (List Write) :=
+  if op.rejectedPinned then none
   else (keyEncrypt c master op.ctx op.secret nonce).map fun ct =>
     ⟨op.file, ct, true⟩ ::
       match op.public with
